@@ -23,6 +23,7 @@ sys.path.insert(0, os.path.dirname(os.path.dirname(os.path.abspath(__file__))))
 import itertools
 import math
 import shutil
+import traceback
 import warnings
 import numpy as np
 import h5py
@@ -269,6 +270,16 @@ class Scenario:
         return (self.root.strip("/") + "/" + p).strip("/")
 
     def run_chain(self, maps, store_form="uri", level=2):
+        """never lets an exception escape: whatever a broken rename leaves behind becomes a recorded failure"""
+        try:
+            self._run_chain(maps, store_form, level)
+        except Exception as e:
+            self.B.fail("runner-examined-the-renamed-file", dict(self.base, store=store_form,
+                        maps=[{short([a])[0]: short([b])[0] for a, b in mm.items()} for mm in maps]),
+                        f"{type(e).__name__}: {str(e)[:300]}\n{traceback.format_exc(limit=5)}", "no exception",
+                        f"runner-examined-the-renamed-file:exception:{self.encoding}")
+
+    def _run_chain(self, maps, store_form="uri", level=2):
         """level 2: full observation on the same object, light on the reopened one;
         level 1: light on both; level 0: light on the same object, names only on the reopened one"""
         """apply the maps successively on ONE Cooler object; check after every step"""
@@ -316,9 +327,15 @@ class Scenario:
                 enc_now = self.check_raw(work, case, new, nt, kind, enc_now, overflow)
                 cur = new
         finally:
-            if h5 is not None:
-                h5.close()
-            os.remove(work)
+            try:
+                if h5 is not None:
+                    h5.close()
+            except Exception:
+                pass
+            try:
+                os.remove(work)
+            except OSError:
+                pass
 
     def check_object(self, c, who, case, new, stale, nt, kind, level):
         B = self.B
@@ -375,10 +392,10 @@ class Scenario:
         B.check("frame:other-datasets-and-attrs-identical", not diff, case, diff, [], nt,
                 f"frame:other-datasets-and-attrs-identical:{kind}")
         got = raw.get(pn, {}).get("data")
-        B.check("raw:chroms/name==renamed", got == new, case, short(got or []), short(new), nt, f"raw:chroms/name==renamed:{kind}")
+        B.check("raw:chroms.name==renamed", got == new, case, short(got or []), short(new), nt, f"raw:chroms.name==renamed:{kind}")
         d, d0 = raw.get(pc), self.raw0[pc]
         ok = d is not None and d["data"] == d0["data"] and d["kind"] in "iu"
-        B.check("raw:bins/chrom-codes-unchanged", ok, case, d and d["data"], d0["data"], nt, f"raw:bins/chrom-codes-unchanged:{kind}")
+        B.check("raw:bins.chrom-codes-unchanged", ok, case, d and d["data"], d0["data"], nt, f"raw:bins.chrom-codes-unchanged:{kind}")
         if d is not None and d["enum"] is not None:
             exp = {nm: i for i, nm in enumerate(new)}
             B.check("raw:enum-dictionary=={new_i:i}", d["enum"] == exp, case, {k[:24]: v for k, v in d["enum"].items()},
@@ -396,6 +413,15 @@ def main():
     B = Bounded("C18", "bounded/C18.py")
     B.max_violations = 40
     cap_failures(B)
+    try:
+        body(B)
+    except Exception as e:  # the runner must ALWAYS end with the JSON line
+        B.fail("runner-completed", dict(stage="main"), f"{type(e).__name__}: {str(e)[:300]}\n{traceback.format_exc(limit=6)}",
+               "no exception", "runner-completed:exception")
+    return B.finish()
+
+
+def body(B):
     T = dict(bin_tables(small=False))
     rngm = lambda n: dict(matrices(n, random.Random(B.seed), 5))
     # (table, matrix, symmetric_upper, nested-with-siblings, full option set for the single-step maps)
@@ -415,15 +441,15 @@ def main():
                + str(len(plan)) + " coolers (1-3 chromosomes, fixed/variable bins, both storage modes, root and nested "
                "group with sibling collections) x {enum, integer} chromosome encodings; chains: ALL ordered pairs of "
                "non-empty injective maps (options {keep, longer, other}" + (" + identity, shorter" if B.thorough else "") +
-               ") on a 2-chromosome cooler x both encodings, 3-step swap via a temporary name, swap twice, there-and-back; "
+               ") on a 2-chromosome cooler x both encodings" + ("" if B.thorough else " (every second pair on the integer-encoded one)") + ", 3-step swap via a temporary name, swap twice, there-and-back; "
                "store given as path / URI with and without leading slash / open r+ handle; 30-40k-character names forcing "
                "the integer fallback" + ("; 150 seeded random 3-step chains on 3 chromosomes with random names" if B.thorough else "")
                + "; every step checked on the same object and on a reopened one (full query set on every "
-               + ("4th" if B.thorough else "6th") + " case, light set otherwise) plus a raw h5py diff of the whole file")
+               + ("4th" if B.thorough else "8th") + " case, light set otherwise) plus a raw h5py diff of the whole file")
     B.rule = ("case = (cooler, encoding, store form, list of maps so far, object, query); non-trivial when the step changes "
               "at least one name; distinct by case")
     B.exhaustive = not B.thorough
-    every = 4 if B.thorough else 6
+    every = 4 if B.thorough else 8
     scen = {}
     k = 0
     for tname, mname, symm, nested, fullopts in plan:
@@ -432,7 +458,13 @@ def main():
         for enc in ("enum", "int"):
             k += 1
             root, sib = ("/x/y", ["/", "/x/z"]) if nested else ("/", [])
-            S = Scenario(B, f"s{k}", tname, bins, mname, A, symm, enc, root, sib)
+            try:
+                S = Scenario(B, f"s{k}", tname, bins, mname, A, symm, enc, root, sib)
+            except Exception as e:
+                B.fail("pristine-reads-as-input", dict(table=tname, matrix=mname, symmetric_upper=symm, encoding=enc, root=root),
+                       f"{type(e).__name__}: {str(e)[:300]}\n{traceback.format_exc(limit=5)}", "scenario built",
+                       "pristine-reads-as-input:exception")
+                continue
             scen[(tname, mname, enc, nested)] = S
             for q, m in enumerate(injective_maps(S.names0, reduced=not fullopts)):
                 S.run_chain([m], level=2 if q % every == 1 else 0)
@@ -448,6 +480,8 @@ def main():
             for m2 in injective_maps(mid, reduced=not B.thorough):
                 if m2:
                     q += 1
+                    if not B.thorough and S.encoding == "int" and q % 2:
+                        continue   # quick: every second pair on the integer-encoded copy
                     S.run_chain([m1, m2], level=1 if q % every == 1 else 0)
         a, b = S.names0[:2]
         S.run_chain([{a: "tmp"}, {b: a}, {"tmp": b}])                 # swap through a temporary name
@@ -488,7 +522,6 @@ def main():
         nm = S.names0
         if len(nm) >= 2 and (B.thorough or key[0] in ("one-bin-chroms", "fixed10-short-last")):
             S.run_chain([{nm[0]: "L" * 40000, nm[1]: "M" * 30000}, {"L" * 40000: "back"}], level=1)
-    return B.finish()
 
 
 if __name__ == "__main__":
